@@ -10,6 +10,7 @@
 From Coq Require Import List Bool Arith Lia Permutation NArith ZArith.
 Import ListNotations.
 From SioV Require Import Base.GoSem Eio.Packet Eio.Codec Eio.CodecProofs Eio.Batcher Eio.BatcherProofs.
+From SioV Require Eio.Limits Eio.LimitsProofs.
 From SioV Require Import Sio.EndToEnd.
 
 (** a Socket.IO frame travels as an Engine.IO MESSAGE packet: text for the header frame, binary
@@ -35,6 +36,34 @@ Qed.
 (** the receiver's decision on one send: every message within the read limit ([max <= 0]: none) *)
 Definition ws_accepts (max : Z) (u : list (bool * bytes)) : bool :=
   forallb (fun m => (max <=? 0)%Z || (zlen (snd m) <=? max)%Z) u.
+
+(** ... and the same decision taken by C13's model of the code (Eio/Limits.v [decide], websocket,
+    either direction): the server reads with its MaxBufferSize, the client with the maxPayload the
+    handshake announced. *)
+Definition ws_accepts_c13 (lc : Limits.cfg) (d : Limits.direction) (u : list (bool * bytes)) : bool :=
+  forallb (fun m => Limits.o_accept (Limits.decide lc d Limits.WS (zlen (snd m)))) u.
+
+(** every frame, as encoded for a websocket message, is within the limit announced in the handshake *)
+Definition frames_within_announced (lc : Limits.cfg) (fs : list packet) : Prop :=
+  Forall (fun p => LimitsProofs.within_announced lc (encoded_len true p)) fs.
+
+Lemma ws_announced_accepted : forall lc d (b : list packet),
+  frames_within_announced lc b -> ws_accepts_c13 lc d (ws_pack b) = true.
+Proof.
+  intros lc d b H. unfold ws_accepts_c13, ws_pack. rewrite forallb_forall. intros m Hm.
+  apply in_map_iff in Hm as [p [<- Hp]]. simpl.
+  unfold frames_within_announced in H. rewrite Forall_forall in H. specialize (H p Hp).
+  rewrite encoded_len_exact.
+  apply (LimitsProofs.within_limit_accepted lc d Limits.WS (encoded_len true p)); [|exact H].
+  rewrite <- encoded_len_exact. apply zlen_nonneg.
+Qed.
+
+Lemma Forall_concat_parts : forall {X} (P : X -> Prop) (bs : list (list X)),
+  Forall P (concat bs) -> Forall (Forall P) bs.
+Proof.
+  induction bs as [|b bs IH]; intros H; [constructor|].
+  simpl in H. apply Forall_app in H as [H1 H2]. constructor; auto.
+Qed.
 
 Section RealTransport.
   Variables (name arg offset dstate : Type).
@@ -73,6 +102,42 @@ Section RealTransport.
     pose proof (exactly_once_intact name name_eqb name_eqb_eq arg offset off_arg packet enc dstate d0
                   dec_step codec_roundtrip msg_ok enc_message_packets (list (bool * bytes)) ws_pack
                   ws_unpack ws_roundtrip (ws_accepts rmax) (fun us => us) (fun us => eq_refl)
+                  hs real_get_all (fun n => eq_refl) hids_distinct c ems tr batches Hil
+                  (write_concat maxp polling frames) Hl Hsig (handlers_ok_fixed name hs c Hs))
+      as [_ [H _]].
+    exact (proj2 (H h Hh)).
+  Qed.
+  Definition real_deliveries_c13 (lc : Limits.cfg) (d : Limits.direction) :=
+    deliveries name arg packet dstate d0 dec_step (list (bool * bytes)) ws_pack ws_unpack
+               (ws_accepts_c13 lc d) (fun us => us) real_get_all.
+
+  (** "Any size up to the limit announced in the handshake", websocket, both directions: if every
+      frame of every emitted event fits the announced maxPayload (or the limit is disabled), the
+      receiver's decision as modelled by C13 accepts every send the real batcher cuts, and every
+      handler gets the events of its name exactly once, intact. *)
+  Theorem real_ws_announced_limit :
+    forall (lc : Limits.cfg) (d : Limits.direction) (c : cfg)
+           (ems : list (list (event name arg * offset))) tr (maxp : Z) polling,
+      client_strips_offset c = false ->
+      Interleave ems tr ->
+      let frames := wire name arg offset off_arg packet enc c tr in
+      let batches := write_writable maxp polling frames in
+      frames_within_announced lc frames ->
+      sig_matches name arg hs (map fst (concat ems)) ->
+      forall h, In h hs ->
+        Permutation (handed arg (hid name h) (real_deliveries_c13 lc d c batches))
+                    (args_named name name_eqb arg (hname name h) (map fst (concat ems))).
+  Proof.
+    intros lc d c ems tr maxp polling Hs Hil frames batches Hfr Hsig h Hh.
+    assert (Hl : within_limits packet (list (bool * bytes)) ws_pack (ws_accepts_c13 lc d) batches).
+    { unfold within_limits. apply Forall_forall. intros b Hb.
+      apply ws_announced_accepted.
+      assert (Hall : Forall (Forall (fun p => LimitsProofs.within_announced lc (encoded_len true p))) batches).
+      { apply Forall_concat_parts. unfold batches. rewrite write_concat. exact Hfr. }
+      rewrite Forall_forall in Hall. now apply Hall. }
+    pose proof (exactly_once_intact name name_eqb name_eqb_eq arg offset off_arg packet enc dstate d0
+                  dec_step codec_roundtrip msg_ok enc_message_packets (list (bool * bytes)) ws_pack
+                  ws_unpack ws_roundtrip (ws_accepts_c13 lc d) (fun us => us) (fun us => eq_refl)
                   hs real_get_all (fun n => eq_refl) hids_distinct c ems tr batches Hil
                   (write_concat maxp polling frames) Hl Hsig (handlers_ok_fixed name hs c Hs))
       as [_ [H _]].
